@@ -67,7 +67,7 @@ pub fn all() -> Vec<Prop> {
             id: "C01",
             level: "exploration",
             rule: "one evaluation = one simulated cluster execution (seed -> committee, fault mix, plan of director actions, schedule); non-trivial = at least one block committed by a correct node and (except in the fault-free population) at least one fault fired; distinct = distinct event-log fingerprint",
-            batches: |t| bft_batches(&[("faultfree", 24), ("swarm", 200)], &[("faultfree", 200), ("swarm", 6000)], t),
+            batches: |t| bft_batches(&[("faultfree", 24), ("swarm", 200), ("hidden", 160)], &[("faultfree", 200), ("swarm", 6000), ("hidden", 4000)], t),
             expected_probes: || vec![],
             components: bft_components,
             assumptions: bft_assumptions,
@@ -327,7 +327,51 @@ fn bft_case(mode: &str, seed: u64) -> (bft::Cfg, Vec<bft::Action>, bft::RunOpts)
         cfg.faults.crash = 0;
         cfg.faults.crash_in_write = 0;
     }
+    if mode == "hidden" {
+        // Directed population for agreement: a committee of 6-8 equal validators, exactly one of
+        // them Byzantine and talkative, mild message loss, and "hidden commit" episodes (below).
+        let mut rng = crate::kit::stream(seed, "hidden-cfg");
+        let n = rand::Rng::gen_range(&mut rng, 6..=8usize);
+        cfg.weights = vec![1; n];
+        cfg.leaders = vec![true; n];
+        cfg.byz = (0..n).map(|i| i == (seed % n as u64) as usize).collect();
+        cfg.weighted = false;
+        cfg.frequency = 1;
+        cfg.faults = bft::cluster::FaultMix::none();
+        cfg.faults.byz = rand::Rng::gen_range(&mut rng, 8..25);
+        cfg.faults.drop = rand::Rng::gen_range(&mut rng, 0..6);
+        cfg.faults.reorder = rand::Rng::gen_range(&mut rng, 0..30);
+        cfg.faults.crash_in_write = if rand::Rng::gen_bool(&mut rng, 0.4) { 2 } else { 0 };
+        cfg.n_actions = rand::Rng::gen_range(&mut rng, 500..1400);
+    }
     let mut plan = bft::gen_plan(&cfg);
+    if mode == "hidden" {
+        // Episodes: the commit votes of a view reach one correct node only, that node is cut off,
+        // the others time out and go on; much later the network heals.  If the rules which force
+        // the re-proposal of a possibly finalized block hold, everybody ends up with the same
+        // block at that height.
+        let mut rng = crate::kit::stream(seed, "hidden");
+        let n = cfg.weights.len() as u32;
+        let vt = cfg.view_timeout_ms as u32;
+        let mut at = rand::Rng::gen_range(&mut rng, 30..120usize);
+        while at + 10 < plan.len() {
+            let to = rand::Rng::gen_range(&mut rng, 0..n);
+            let len = rand::Rng::gen_range(&mut rng, 60..260usize);
+            let ep = vec![bft::Action::HideCommit { to }];
+            let _ = vt;
+            for (k, a) in ep.into_iter().enumerate() {
+                plan.insert(at + k, a);
+            }
+            let heal = (at + len).min(plan.len());
+            plan.insert(heal, bft::Action::Heal);
+            // Timers fire again while the group is on its own.
+            for _ in 0..rand::Rng::gen_range(&mut rng, 1..4) {
+                let p = rand::Rng::gen_range(&mut rng, at + 8..heal.max(at + 9));
+                plan.insert(p.min(plan.len()), bft::Action::Tick { node: n, ms: vt * rand::Rng::gen_range(&mut rng, 101..140) / 100 });
+            }
+            at = heal + rand::Rng::gen_range(&mut rng, 40..200usize);
+        }
+    }
     if stops {
         // Graceful stops (context cancellation, as on operator stop or at the end of an epoch) in
         // the middle of message processing, each followed by a restart.
